@@ -7,6 +7,7 @@ import re
 from harness import common as C
 from harness import c07_gen as G
 from harness import c07_dispatch as D
+from harness import c07_fw as F
 
 META = {
     "id": "C07",
@@ -130,11 +131,22 @@ def run(ctx: C.Ctx):
     progs = []
     for i in range(n_prog):
         progs.append(G.gen_program(rng, maxdepth=rng.choice([1, 2, 3, 3, 4])))
+    # bodies that emit no device code (any block kind), chains of up to 5 elif, break / bare return:
+    # shapes the property quantifies over and the batch above (almost) never draws
+    n_hollow = 150 if thorough else 30
+    G.OPTS.update({"hollow": 0.35, "max_elifs": 5, "jumps": True})
+    try:
+        for i in range(n_hollow):
+            progs.append(G.gen_program(rng, maxdepth=rng.choice([2, 3, 3, 4])))
+    finally:
+        G.OPTS.update({"hollow": 0.0, "max_elifs": 2, "jumps": False})
+    n_random = len(progs)
+    progs += G.systematic_programs()          # exhaustive small chains / try / loops over {device statement, pass, print}
     inguard = []       # (prog index, unit, ltops, final junk, lines)
     for pi, tops in enumerate(progs):
         lt, fj = G.canonical(tops)
         inguard.append((pi, "    ", lt, fj, G.render(lt, fj, "    ")))
-        for j in range(n_lay):
+        for j in range(n_lay if pi < n_prog else 2):
             u = rng.choice(G.UNITS)
             dens = rng.choice([0.15, 0.35, 0.6])
             sp = rng.choice([0.0, 0.5, 0.9])
@@ -217,6 +229,41 @@ def run(ctx: C.Ctx):
         if pi in base and base[pi][0] is lines and r.get("exc"):
             ctx.fail("a script of the supported subset in canonical layout is rejected", {"script": lines}, "accepted", r.get("exc"), key="canonical-rejected")
 
+    # ---- oracle C: the block structure of the FIRMWARE is Python's (every control header of the script once, every
+    # numbered statement and every break/continue/return under the conditions and in the function/phase Python puts
+    # it - for a member of an if chain: its own condition and the negation of every earlier one), canonical layout
+    n_items = 0
+    struct_kinds = {}
+    struct_fail = []
+    for pi in sorted(base):
+        lines, r = base[pi]
+        if r.get("exc") or r.get("cpp") is None:
+            continue
+        want = F.py_items(progs[pi])
+        evaluations += 1
+        n_items += len(want)
+        for p_, it in want:
+            kname = "stmt" if it[0] == "stmt" else it[0] + ":" + str(it[1])
+            struct_kinds[kname] = struct_kinds.get(kname, 0) + 1
+            if len(p_) > 1:
+                nontrivial.add(("struct", pi, repr(p_), repr(it)))
+        verdict = _structure_verdict(progs[pi], r["cpp"])
+        if verdict is not None:
+            struct_fail.append((len(lines), pi, verdict[0]))
+    reported = set()
+    for _, pi, key in sorted(struct_fail):          # smallest failing script first, one report per class
+        if key in reported:
+            continue
+        reported.add(key)
+        tops = _shrink_structure(progs[pi], key)
+        lt, fj = G.canonical(tops)
+        lines = G.render(lt, fj, "    ")
+        r = C.run_impl("c07_impl.py", {"cases": [["trace", lines]]})[0]
+        key, what, exp, obs = _structure_verdict(tops, r["cpp"])
+        ctx.fail(what, {"script": lines, "firmware": [l for _, h, b in F.sections(r["cpp"]) for l in [h] + b + ["}"]]}, exp, obs, key=key)
+    dist["block_structure_items"] = struct_kinds
+    dist["hollow_bodies"] = _count_hollow(progs)
+
     # ================================================================ 2. model vs code: call tree of _parse_simple_lines
     n_trace = 0
     if have_model:
@@ -246,6 +293,89 @@ def run(ctx: C.Ctx):
                 ctx.disagree("generated layout is outside the Coq guard top_layout_ok", [u, lines], o13[1], 1)
             if o10[1] != want:
                 ctx.disagree("parse_top of an in-guard layout is not the skeleton (round trip)", lines, o10[1], want)
+
+    # ================================================================ 2b. the emitter: model vs code, spec reader vs its Python twin
+    n_emit = 0
+    ir_dist = {}
+    leaf_out = C.run_impl("c07_impl.py", {"cases": [["leaflines", sp] for sp in F.LEAF_SPECS]})
+    leaf_lines = {repr(sp): (o["lines"] or []) for sp, o in zip(F.LEAF_SPECS, leaf_out)}
+    ir_cases = []
+    for i in range(1200 if thorough else 250):
+        ir_cases.append((rng.choice(F.INDENTS), F.gen_ir(rng, rng.choice([1, 2, 3, 4]), rng.choice([0.0, 0.3, 0.6]))))
+    ir_cases += [(ind, [t]) for ind in ("", "  ") for t in _ir_boundary()]
+    for _, trees in ir_cases:
+        F.ir_stats(trees, ir_dist)
+    eb = C.run_impl("c07_impl.py", {"cases": [["emitblock", ind, trees] for ind, trees in ir_cases]}, timeout=3000)
+    if have_model:
+        m14 = ctx.model([[14, ind, [F.enc_ir(t, leaf_lines) for t in trees]] for ind, trees in ir_cases])
+        for (ind, trees), r, m in zip(ir_cases, eb, m14):
+            n_emit += 1
+            ml = texts(m[1])
+            if r["exc"] or r["lines"] != ml:
+                ctx.disagree("_emit_block on an IR control skeleton (lines written for if/elif/else, while, for, try/catch)", [ind, trees], ml, r["lines"] if not r["exc"] else r["exc"])
+            elif m[2] == 1 and F.dec_ctrees(m[3], C.wstr) != F.c_read(r["lines"]):
+                ctx.disagree("SPEC c_read (Coq) vs its Python twin on emitted lines", r["lines"], F.dec_ctrees(m[3], C.wstr), F.c_read(r["lines"]))
+            if any(t[0] != "leaf" for t in trees):
+                nontrivial.add(("ir", ind, repr(trees)))
+        # whole sketches from hand-built IR: sections of emit()
+        sk_cases = [(F.gen_ir(rng, 2, 0.4), F.gen_ir(rng, 2, 0.4), [["fn0", F.gen_ir(rng, 2, 0.5)], ["fn1", []]]) for _ in range(60 if thorough else 15)]
+        sk_cases.append(([], [], [["fn0", []]]))
+        sk = C.run_impl("c07_impl.py", {"cases": [["emitprog", a, b, fns] for a, b, fns in sk_cases]}, timeout=3000)
+        for (a, b, fns), r in zip(sk_cases, sk):
+            n_emit += 1
+            if r["exc"]:
+                ctx.disagree("emit() on a hand-built Program", [a, b, fns], "a sketch", r["exc"])
+                continue
+            secs = F.sections(r["cpp"])
+            want_secs = [n for n, _ in fns] + ["setup", "loop"]
+            if [n for n, _, _ in secs] != want_secs:
+                ctx.disagree("sections of the sketch (one per function, then setup, loop)", [a, b, fns], want_secs, [n for n, _, _ in secs])
+                continue
+            m = ctx.model([[14, "  ", [F.enc_ir(t, leaf_lines) for t in trees]] for trees in [f[1] for f in fns] + [a, b]])
+            for (name, hdr, body), mo in zip(secs, m):
+                # setup()/loop() also hold what emit() hoists (none here: no device is declared) and a placeholder comment when empty
+                got = [l for l in body if l.strip() and not l.strip().startswith("//")]
+                if got != texts(mo[1]):
+                    ctx.disagree(f"body of section {name} of the sketch vs emit_list at one indentation step", [a, b, fns], texts(mo[1]), got)
+        # the spec reader on every real firmware of the canonical layouts
+        fw_secs = []
+        for pi in sorted(base):
+            r = base[pi][1]
+            if r.get("cpp"):
+                fw_secs += [b for _, _, b in F.sections(r["cpp"])]
+        m15 = ctx.model([[15, b] for b in fw_secs])
+        for b, mo in zip(fw_secs, m15):
+            n_emit += 1
+            if F.dec_ctrees(mo[1], C.wstr) != F.c_read(b):
+                ctx.disagree("SPEC c_read (Coq) vs its Python twin on a firmware section", b, F.dec_ctrees(mo[1], C.wstr), F.c_read(b))
+        # script -> lexical skeleton -> IR -> compound statements (model) vs the compound statements of the real firmware
+        c16, meta16 = [], []
+        for pi in sorted(base):
+            lines, r = base[pi]
+            if r.get("exc") or not r.get("cpp"):
+                continue
+            secs = {n: b for n, _, b in F.sections(r["cpp"])}
+            for name, nodes, where in _py_sections(progs[pi]):
+                tabs = _tables(nodes, where)
+                if tabs is None:
+                    continue
+                snippet = []
+                for n in G.canonical([("chain", nodes)])[0][0][1]:
+                    snippet += G.render_node(n, "    ", 0)
+                c16.append([16, snippet] + tabs)
+                meta16.append((lines, name, secs.get(name, []), F.marks_of(progs[pi])))
+        m16 = ctx.model(c16)
+        for (lines, name, body, marks), mo in zip(meta16, m16):
+            n_emit += 1
+            want = _drop_plain(F.dec_ctrees([mo[2]], C.wstr))
+            got = _norm_fw(F.c_read(body) or [], marks)
+            if mo[1] != 1:
+                ctx.disagree("generated script is outside the Coq guard chain_ok", [name, lines], mo[1], 1)
+            elif want != got:
+                ctx.disagree(f"compound statements of {name}(): py_cs (model: parse_lines -> to_ir -> what Python's block tree prescribes) vs the real firmware",
+                             lines, want, got)
+        evaluations += n_emit
+    dist["emitter_ir_nodes"] = ir_dist
 
     # ================================================================ 3. lexical functions called directly
     icases = indent_cases(rng, thorough)
@@ -400,6 +530,9 @@ def run(ctx: C.Ctx):
         if still:
             ctx.known(f"{f['id']}: {f['what']}")
 
+    import os, json as _json
+    if os.environ.get("C07_DEBUG"):
+        _json.dump(ctx.tie_broken, open(os.environ["C07_DEBUG"], "w"))
     # ================================================================ evidence
     for (pi, u, lt, fj, lines) in inguard[1:4]:
         samples.append({"unit": u, "script": lines})
@@ -436,6 +569,215 @@ def run(ctx: C.Ctx):
     })
     ctx.assumptions += ["one physical line = one logical line (no continuation lines, no multi-line literals) in every theorem about blocks",
                         "Python's layout rules as modelled in Lang/PyLayout.v (validated against CPython tokenize/ast on every run)"]
+
+
+def _structure_verdict(tops, cpp):
+    """None, or (class key, what, expected, observed) when the firmware does not have the script's block structure"""
+    want = F.py_items(tops)
+    got, problem = F.fw_items(cpp, F.marks_of(tops))
+    if got is None:
+        return ("firmware-unbalanced", "the emitted firmware is not a sequence of closed compound statements",
+                "balanced braces in every function", problem)
+    if want == got:
+        return None
+    missing = [x for x in want if x not in got]
+    extra = [x for x in got if x not in want]
+    kind = (missing or extra)[0][1]
+    return ("block-structure:" + str(kind[0]) + (":" + str(kind[1]) if kind[0] != "stmt" else ""),
+            "the firmware does not have the block structure of the script: a control-flow header is missing/added, or a statement "
+            "runs under other conditions (or in another function / phase) than Python gives it",
+            {"only in the script (path, item)": F.show(missing)}, {"only in the firmware (path, item)": F.show(extra)})
+
+
+def _shrink_structure(tops, key, budget=4000):
+    """greedy: drop one top-level item / one node at a time (a body that would become empty keeps a `pass`) while the
+    real transpiler still shows a failure of the same class"""
+    def variants(tops):
+        for i, t in enumerate(tops):
+            if t[0] != "imp" and not (t[0] == "chain" and t[1] and t[1][0][0] == "leaf" and t[1][0][1] in G.PRELUDE):
+                yield tops[:i] + tops[i + 1:]
+        for i, t in enumerate(tops):
+            if t[0] == "chain":
+                for ns in node_variants(t[1], top=True):
+                    if ns:
+                        yield tops[:i] + [("chain", ns)] + tops[i + 1:]
+            elif t[0] in ("main", "def"):
+                for ns in node_variants(t[2]):
+                    yield tops[:i] + [(t[0], t[1], ns)] + tops[i + 1:]
+
+    def node_variants(ns, top=False):
+        for i, n in enumerate(ns):
+            if n[0] == "block" and n[1] in ("if", "try") and i + 1 < len(ns) and ns[i + 1][0] == "block" and ns[i + 1][1] in G.CONT:
+                pass                                   # the head of a chain cannot go while its continuation stays
+            else:
+                rest = ns[:i] + ns[i + 1:]
+                yield rest if (rest or top) else [("leaf", "pass", ("allowed", "pass"))]
+            if n[0] == "block":
+                for b in node_variants(n[3]):
+                    yield ns[:i] + [(n[0], n[1], n[2], b)] + ns[i + 1:]
+
+    while budget > 0:
+        cands = list(variants(tops))[:600]
+        found = None
+        for at in range(0, len(cands), 50):          # top-level items come first: big steps early
+            chunk = cands[at: at + 50]
+            budget -= len(chunk)
+            scripts = []
+            for c in chunk:
+                lt, fj = G.canonical(c)
+                scripts.append(G.render(lt, fj, "    "))
+            rs = C.run_impl("c07_impl.py", {"cases": [["trace", l] for l in scripts]}, timeout=3000)
+            for c, r in zip(chunk, rs):
+                if r.get("exc") or not r.get("cpp"):
+                    continue
+                v = _structure_verdict(c, r["cpp"])
+                if v is not None and v[0] == key:
+                    found = c
+                    break
+            if found is not None or budget <= 0:
+                break
+        if found is None:
+            break
+        tops = found
+    return tops
+
+
+def _count_hollow(progs):
+    """per block kind: bodies that consist only of lines of the fixed set / all bodies"""
+    c = {}
+
+    def body(kind, b):
+        c[kind] = c.get(kind, 0) + 1
+        if all(n[0] == "leaf" and n[2][0] == "allowed" for n in b):
+            c[kind + ":hollow"] = c.get(kind + ":hollow", 0) + 1
+        for n in b:
+            if n[0] == "block":
+                body(n[1], n[3])
+    for tops in progs:
+        for t in tops:
+            if t[0] == "chain":
+                for n in t[1]:
+                    if n[0] == "block":
+                        body(n[1], n[3])
+            elif t[0] in ("main", "def"):
+                body(t[0], t[2])
+    # hollow NON-FIRST branch followed by another branch with device work: the shape of an `else if` that must stay
+    k = 0
+
+    def chains(ns):
+        nonlocal k
+        for i, n in enumerate(ns):
+            if n[0] == "block":
+                if n[1] == "elif" and all(m[0] == "leaf" and m[2][0] == "allowed" for m in n[3]) and i + 1 < len(ns) \
+                        and ns[i + 1][0] == "block" and ns[i + 1][1] in ("elif", "else"):
+                    k += 1
+                chains(n[3])
+    for tops in progs:
+        for t in tops:
+            chains(t[1] if t[0] == "chain" else t[2] if t[0] in ("main", "def") else [])
+    c["hollow_elif_followed_by_branch"] = k
+    return c
+
+
+def _ir_boundary():
+    """hand-picked IR shapes: every position of an empty body"""
+    w = ["leaf", ["SerialWrite", "mon", "7"]]
+    z = ["leaf", ["ButtonDecl", "btn", 2]]        # a node that emits no line
+    out = []
+    for bodies in itertools.product([[], [w], [z]], repeat=3):
+        for els in ([], [w], [z]):
+            out.append(["if", [["(a)", bodies[0]], ["(b)", bodies[1]], ["(c)", bodies[2]]], els])
+    out += [["if", [["(a)", []]], []], ["if", [], [w]], ["if", [], []], ["while", "(a)", []], ["for", "i", 0, []],
+            ["try", [], []], ["try", [], [[None, None, []]]], ["try", [w], [["E", "e", []], [None, "t", [w]], ["", "", []]]]]
+    return out
+
+
+def _py_sections(tops):
+    """(firmware function name, nodes, where) for the parts of a skeleton that end up in one function"""
+    setup = []
+    out = []
+    for t in tops:
+        if t[0] == "chain":
+            setup += t[1]
+        elif t[0] == "main":
+            out.append(("loop", t[2], "main"))
+        elif t[0] == "def":
+            out.append((F.RE_PY_DEF.match(G.canon_spacing(t[1])).group(1), t[2], "def"))
+    return [("setup", setup, "top")] + out
+
+
+def _tables(nodes, where):
+    """what the statement layer does, as far as the block structure can see it: the lines of the fixed set become no
+    node, a numbered statement a line @k, break/continue/return their C++ statement, anything else a line #"""
+    tr, cx, fv, fn, ex = {}, {}, {}, {}, {}
+    meanings = set()
+
+    def walk(ns, loop):
+        for n in ns:
+            if n[0] == "leaf":
+                t, meta = G.canon_spacing(n[1]), n[2]
+                if meta[0] == "allowed":
+                    tr[t] = []
+                elif meta[0] == "mark":
+                    tr[t] = [["@" + str(meta[1])]]
+                elif meta[0] == "continue":
+                    meanings.add(meta[1])
+                    tr[t] = [["continue;" if meta[1] == "loop" else "return;"]]
+                elif meta[0] == "jump":
+                    tr[t] = [[meta[1]]]
+                else:
+                    tr[t] = [["#"]]
+                continue
+            h = G.canon_spacing(n[2])
+            if n[1] in ("if", "elif", "while"):
+                cx[h] = F.norm(h[len(n[1]):].rstrip()[:-1])
+            elif n[1] == "for":
+                m = F.RE_PY_FOR.match(h)
+                fv[h], fn[h] = m.group(1), m.group(2)
+            elif n[1] == "except":
+                m = F.RE_PY_EXCEPT.match(h)
+                ex[h] = F.catch_text(m.group(1), m.group(2))
+            walk(n[3], loop)
+    walk(nodes, where)
+    # `continue` means two different things in one main-loop body (inside a for/while: continue; directly: return;):
+    # a table keyed by statement text cannot say both - such bodies are compared by the oracle only
+    if len(meanings) > 1:
+        return None
+    return [[[k, v] for k, v in tr.items()], [[k, v] for k, v in cx.items()], [[k, v] for k, v in fv.items()],
+            [[k, v] for k, v in fn.items()], [[k, v] for k, v in ex.items()]]
+
+
+def _drop_plain(trees):
+    out = []
+    for t in trees or []:
+        if t[0] == 0:
+            if t[1] != "#":
+                out.append(t)
+        else:
+            out.append([1, t[1], _drop_plain(t[2])])
+    return out
+
+
+def _norm_fw(trees, marks):
+    out = []
+    for t in trees:
+        if t[0] == 0:
+            s = t[1]
+            if s in ("continue;", "break;", "return;"):
+                out.append([0, s])
+            elif F.MARK_LINE.match(s):
+                for tok in re.findall(r"(?<![\w.])\d+(?![\w.])", s):
+                    if int(tok) in marks:
+                        out.append([0, "@" + tok])
+            continue
+        h = t[1]
+        m = F.RE_C_ELIF.match(h) or F.RE_C_IF.match(h) or F.RE_C_WHILE.match(h)
+        if m:
+            out.append([1, h[: m.start(1)] + F.norm(m.group(1)) + ")", _norm_fw(t[2], marks)])
+        elif h in ("else", "try") or F.RE_C_FOR.match(h) or F.RE_C_CATCH.match(h):
+            out.append([1, h, _norm_fw(t[2], marks)])
+        # any other block is one some simple statement opened itself: not part of the script's structure
+    return out
 
 
 def _ign_key(e):
